@@ -161,7 +161,7 @@ pub open spec fn spec_extract_map2(h: Htlc) -> HTLCInfo2 { htlc_info_of(h) }
 // contract in units channel_cp, channel_holder; DESIGN.md section 6.9)
 pub uninterp spec fn chan_signed_cp2(c: VxChanView, point: PublicKey, n: u64, feerate: u32, to_holder: u64, to_cp: u64, offered: Seq<HTLCInfo2>, received: Seq<HTLCInfo2>,
     r: Result<(Signature, Vec<Signature>), Status>, after: VxChanView) -> bool;
-pub uninterp spec fn chan_signed_cp1(c: VxChanView, tx: Transaction, witscripts: Seq<Vec<u8>>, point: PublicKey, n: u64, feerate: u32, offered: Seq<HTLCInfo2>, received: Seq<HTLCInfo2>,
+pub uninterp spec fn chan_signed_cp1(c: VxChanView, tx: Transaction, witscripts: Seq<Seq<u8>>, point: PublicKey, n: u64, feerate: u32, offered: Seq<HTLCInfo2>, received: Seq<HTLCInfo2>,
     r: Result<Signature, Status>, after: VxChanView) -> bool;
 pub uninterp spec fn chan_validated_cp_revocation(c: VxChanView, n: u64, secret: SecretKey, r: Result<(), Status>, after: VxChanView) -> bool;
 pub uninterp spec fn chan_signed_holder2(c: VxChanView, n: u64, r: Result<Signature, Status>, after: VxChanView) -> bool;
@@ -170,7 +170,7 @@ pub uninterp spec fn chan_secret(c: VxChanView, n: u64, r: Result<SecretKey, Sta
 pub uninterp spec fn chan_checked_future_secret(c: VxChanView, n: u64, secret: SecretKey, r: Result<bool, Status>) -> bool;
 pub uninterp spec fn chan_validated_holder(c: VxChanView, n: u64, feerate: u32, to_local: u64, to_remote: u64, offered: Seq<HTLCInfo2>, received: Seq<HTLCInfo2>,
     sig: Signature, htlc_sigs: Seq<Signature>, after: VxChanView) -> bool;
-pub uninterp spec fn chan_validated_holder_raw(c: VxChanView, tx: Transaction, witscripts: Seq<Vec<u8>>, n: u64, feerate: u32, offered: Seq<HTLCInfo2>, received: Seq<HTLCInfo2>,
+pub uninterp spec fn chan_validated_holder_raw(c: VxChanView, tx: Transaction, witscripts: Seq<Seq<u8>>, n: u64, feerate: u32, offered: Seq<HTLCInfo2>, received: Seq<HTLCInfo2>,
     sig: Signature, htlc_sigs: Seq<Signature>, after: VxChanView) -> bool;
 pub uninterp spec fn chan_revoked(c: VxChanView, n: u64, r: Result<(PublicKey, Option<SecretKey>), Status>, after: VxChanView) -> bool;
 pub uninterp spec fn chan_activated(c: VxChanView, r: Result<PublicKey, Status>, after: VxChanView) -> bool;
@@ -190,7 +190,7 @@ impl VxChan {
     #[verifier::external_body]
     pub fn sign_counterparty_commitment_tx(&mut self, tx: &Transaction, output_witscripts: &Vec<Vec<u8>>, remote_per_commitment_point: &PublicKey, commitment_number: u64,
         feerate_per_kw: u32, offered_htlcs: Vec<HTLCInfo2>, received_htlcs: Vec<HTLCInfo2>) -> (r: Result<Signature, Status>)
-        ensures chan_signed_cp1(old(self)@, *tx, output_witscripts@, *remote_per_commitment_point, commitment_number, feerate_per_kw, offered_htlcs@, received_htlcs@, r, final(self)@)
+        ensures chan_signed_cp1(old(self)@, *tx, contents(output_witscripts@), *remote_per_commitment_point, commitment_number, feerate_per_kw, offered_htlcs@, received_htlcs@, r, final(self)@)
     { unimplemented!() }
     #[verifier::external_body]
     pub fn validate_counterparty_revocation(&mut self, revoke_num: u64, old_secret: &SecretKey) -> (r: Result<(), Status>)
@@ -214,7 +214,7 @@ impl VxChan {
     #[verifier::external_body]
     pub fn validate_holder_commitment_tx(&mut self, tx: &Transaction, output_witscripts: &Vec<Vec<u8>>, commitment_number: u64, feerate_per_kw: u32,
         offered_htlcs: Vec<HTLCInfo2>, received_htlcs: Vec<HTLCInfo2>, counterparty_commit_sig: &Signature, counterparty_htlc_sigs: &Vec<Signature>) -> (r: Result<(), Status>)
-        ensures r.is_ok() ==> chan_validated_holder_raw(old(self)@, *tx, output_witscripts@, commitment_number, feerate_per_kw, offered_htlcs@, received_htlcs@,
+        ensures r.is_ok() ==> chan_validated_holder_raw(old(self)@, *tx, contents(output_witscripts@), commitment_number, feerate_per_kw, offered_htlcs@, received_htlcs@,
                     *counterparty_commit_sig, counterparty_htlc_sigs@, final(self)@),
                 r.is_err() ==> final(self)@ == old(self)@,
     { unimplemented!() }
@@ -266,10 +266,44 @@ pub struct SignRemoteCommitmentTx2 { pub remote_per_commitment_point: PubKey, pu
     pub to_remote_value_sat: u64, pub htlcs: VxHtlcArray }
 pub struct ValidateRevocation { pub commitment_number: u64, pub commitment_secret: DisclosedSecret }
 // WithSize<Transaction> / WithSize<PsbtWrapper>: the transaction and the PSBT the message carries
-#[verifier::external_body] pub struct VxPsbt { _p: u8 }
+// bitcoin::Psbt as far as the handler reads it: the per-output maps with their optional witness script
+#[verifier::external_body] pub struct VxPsbtRest { _p: u8 }
+pub struct VxPsbtOutput { pub witness_script: Option<ScriptBuf>, pub rest: VxPsbtRest }
+pub struct VxPsbt { pub outputs: Vec<VxPsbtOutput>, pub rest: VxPsbtRest }
 pub struct VxPsbtWrapper { pub inner: VxPsbt }
-pub uninterp spec fn psbt_witscripts(p: VxPsbt) -> Seq<Vec<u8>>;           // extract_psbt_witscripts: the witness script of every PSBT output (empty when absent)
-#[verifier::external_body] pub fn extract_psbt_witscripts(p: &VxPsbt) -> (r: Vec<Vec<u8>>) ensures r@ == psbt_witscripts(*p) { unimplemented!() }
+pub uninterp spec fn script_bytes(s: ScriptBuf) -> Seq<u8>;
+pub uninterp spec fn empty_script() -> ScriptBuf;
+impl ScriptBuf {
+    #[verifier::external_body] pub fn new() -> (r: ScriptBuf) ensures r == empty_script() { unimplemented!() }
+    #[verifier::external_body] pub fn vx_to_bytes(&self) -> (r: Vec<u8>) ensures r@ == script_bytes(*self) { unimplemented!() }     // s[..].to_bytes()
+}
+// the witness script of every PSBT output, as bytes, in output order (the empty script when an output has none)
+pub open spec fn witscript_of(o: VxPsbtOutput) -> ScriptBuf { match o.witness_script { Some(s) => s, None => empty_script() } }
+pub open spec fn psbt_witscripts(p: VxPsbt) -> Seq<Seq<u8>> { Seq::new(p.outputs@.len(), |k: int| script_bytes(spec_witscript_pick(p.outputs@[k]))) }
+pub open spec fn spec_witscript_pick(o: VxPsbtOutput) -> ScriptBuf { witscript_of(o) }
+// the byte contents of a vector of byte vectors
+pub open spec fn contents(s: Seq<Vec<u8>>) -> Seq<Seq<u8>> { Seq::new(s.len(), |k: int| s[k]@) }
+// `psbt.outputs.iter().map(F).map(G).collect()` (std semantics: G(F(o)) for every output, in order), F and G = the two lifted closures
+#[verifier::external_body]
+pub fn vx_map_map_collect(outputs: &Vec<VxPsbtOutput>) -> (r: Vec<Vec<u8>>)
+    ensures r@.len() == outputs@.len(), forall|k: int| 0 <= k < outputs@.len() ==> (#[trigger] r@[k])@ == script_bytes(spec_witscript_pick(outputs@[k]))
+{ unimplemented!() }
+
+//@fn vls-protocol-signer/src/handler.rs :: - :: extract_psbt_witscripts exprclosure=1 as=witscript_pick_closure props=C04
+//@sig fn witscript_pick_closure(o: &VxPsbtOutput) -> (r: ScriptBuf)
+    ensures r == spec_witscript_pick(*o),
+//@end
+//@fn vls-protocol-signer/src/handler.rs :: - :: extract_psbt_witscripts exprclosure=2 as=witscript_bytes_closure props=C04
+//@sig fn witscript_bytes_closure(s: ScriptBuf) -> (r: Vec<u8>)
+    ensures r@ == script_bytes(s),
+//@sub /s\[\.\.\]\.to_bytes\(\)/ => s.vx_to_bytes()
+//@end
+//@fn vls-protocol-signer/src/handler.rs :: - :: extract_psbt_witscripts props=C04
+//@sigsub /&Psbt/ => &VxPsbt
+    ensures
+        contents(r@) == psbt_witscripts(*psbt),                                                  //[C04.handler.witscripts-are-the-psbt-outputs-in-order]
+//@sub /(?s)psbt\.outputs\s*\.iter\(\)\s*\.map\(\|o\|[^\n]*\)\s*\.map\(\|s\|[^\n]*\)\s*\.collect\(\)/ => { let vx_r = vx_map_map_collect(&psbt.outputs); proof { assert(contents(vx_r@) =~= psbt_witscripts(*psbt)); } vx_r }
+//@end
 pub struct SignRemoteCommitmentTx { pub tx: Transaction, pub psbt: VxPsbtWrapper, pub remote_funding_key: PubKey, pub remote_per_commitment_point: PubKey,
     pub option_static_remotekey: bool, pub commitment_number: u64, pub htlcs: VxHtlcArray, pub feerate: u32 }
 pub struct SignLocalCommitmentTx2 { pub commitment_number: u64 }
@@ -548,19 +582,19 @@ impl ChannelHandler {
 // ------------------------------------------------ SignRemoteCommitmentTx (the raw-transaction entry point)
 //@fn vls-protocol-signer/src/handler.rs :: impl Handler for ChannelHandler :: do_handle closure=1 after="Message::SignRemoteCommitmentTx\(m\) =>" as=sign_remote_commitment_tx_closure props=C04,C03
 //@sig fn sign_remote_commitment_tx_closure(&self, chan: &mut VxChan, tx: Transaction, witscripts: Vec<Vec<u8>>, remote_per_commitment_point: PublicKey, commit_num: u64, feerate_sat_per_kw: u32, offered_htlcs: &Vec<HTLCInfo2>, received_htlcs: &Vec<HTLCInfo2>) -> (r: Result<Signature, Status>)
-    ensures chan_signed_cp1(old(chan)@, tx, witscripts@, remote_per_commitment_point, commit_num, feerate_sat_per_kw, offered_htlcs@, received_htlcs@, r, final(chan)@),   //[C04.handler.sign-remote1-closure-one-call-with-the-captured-values]
+    ensures chan_signed_cp1(old(chan)@, tx, contents(witscripts@), remote_per_commitment_point, commit_num, feerate_sat_per_kw, offered_htlcs@, received_htlcs@, r, final(chan)@),   //[C04.handler.sign-remote1-closure-one-call-with-the-captured-values]
 //@sub /offered_htlcs\.clone\(\)/ => vx_clone_htlcs(offered_htlcs)
 //@sub /received_htlcs\.clone\(\)/ => vx_clone_htlcs(received_htlcs)
 //@end
 
-    pub open spec fn sign_remote1_done(&self, tx: Transaction, witscripts: Seq<Vec<u8>>, point: PublicKey, n: u64, feerate: u32, offered: Seq<HTLCInfo2>, received: Seq<HTLCInfo2>,
+    pub open spec fn sign_remote1_done(&self, tx: Transaction, witscripts: Seq<Seq<u8>>, point: PublicKey, n: u64, feerate: u32, offered: Seq<HTLCInfo2>, received: Seq<HTLCInfo2>,
         r: Result<Signature, Status>) -> bool {
         exists|c0: VxChanView, c1: VxChanView| node_channel(self.node, self.channel_id, c0) && #[trigger] chan_signed_cp1(c0, tx, witscripts, point, n, feerate, offered, received, r, c1)
     }
     #[verifier::external_body]
     pub fn vx_with_channel_sign_remote1(&self, tx: &Transaction, witscripts: &Vec<Vec<u8>>, remote_per_commitment_point: PublicKey, commit_num: u64, feerate_sat_per_kw: u32,
         offered_htlcs: &Vec<HTLCInfo2>, received_htlcs: &Vec<HTLCInfo2>) -> (r: Result<Signature, Status>)
-        ensures r.is_ok() ==> self.sign_remote1_done(*tx, witscripts@, remote_per_commitment_point, commit_num, feerate_sat_per_kw, offered_htlcs@, received_htlcs@, r)
+        ensures r.is_ok() ==> self.sign_remote1_done(*tx, contents(witscripts@), remote_per_commitment_point, commit_num, feerate_sat_per_kw, offered_htlcs@, received_htlcs@, r)
     { unimplemented!() }
 
 //@fn vls-protocol-signer/src/handler.rs :: impl Handler for ChannelHandler :: do_handle arm="Message::SignRemoteCommitmentTx\(m\)" as=arm_sign_remote_commitment_tx props=C04,C03,C06
@@ -586,13 +620,13 @@ impl ChannelHandler {
 //@sig fn validate_commitment_tx1_closure(&self, chan: &mut VxChan, tx: Transaction, witscripts: Vec<Vec<u8>>, commit_num: u64, feerate_sat_per_kw: u32, offered_htlcs: &Vec<HTLCInfo2>, received_htlcs: &Vec<HTLCInfo2>, commit_sig: Signature, htlc_sigs: Vec<Signature>) -> (r: Result<(PublicKey, Option<SecretKey>), Status>)
     requires commit_num < u64::MAX,
     ensures
-        r.is_ok() ==> exists|mid: VxChanView| #[trigger] chan_validated_holder_raw(old(chan)@, tx, witscripts@, commit_num, feerate_sat_per_kw, offered_htlcs@, received_htlcs@, commit_sig, htlc_sigs@, mid)
+        r.is_ok() ==> exists|mid: VxChanView| #[trigger] chan_validated_holder_raw(old(chan)@, tx, contents(witscripts@), commit_num, feerate_sat_per_kw, offered_htlcs@, received_htlcs@, commit_sig, htlc_sigs@, mid)
             && (r->Ok_0.1.is_some() ==> self.protocol_version < PROTOCOL_VERSION_REVOKE && chan_revoked(mid, commit_num, r, final(chan)@)),   //[C01.handler.validate1-secret-only-after-channel-accepted-this-commitment]
 //@sub /offered_htlcs\.clone\(\)/ => vx_clone_htlcs(offered_htlcs)
 //@sub /received_htlcs\.clone\(\)/ => vx_clone_htlcs(received_htlcs)
 //@end
 
-    pub open spec fn validate1_done(&self, tx: Transaction, witscripts: Seq<Vec<u8>>, n: u64, feerate: u32, offered: Seq<HTLCInfo2>, received: Seq<HTLCInfo2>, sig: Signature,
+    pub open spec fn validate1_done(&self, tx: Transaction, witscripts: Seq<Seq<u8>>, n: u64, feerate: u32, offered: Seq<HTLCInfo2>, received: Seq<HTLCInfo2>, sig: Signature,
         htlc_sigs: Seq<Signature>, r: Result<(PublicKey, Option<SecretKey>), Status>) -> bool {
         exists|c0: VxChanView, mid: VxChanView| node_channel(self.node, self.channel_id, c0)
             && #[trigger] chan_validated_holder_raw(c0, tx, witscripts, n, feerate, offered, received, sig, htlc_sigs, mid)
@@ -602,7 +636,7 @@ impl ChannelHandler {
     pub fn vx_with_channel_validate1(&self, tx: &Transaction, witscripts: &Vec<Vec<u8>>, commit_num: u64, feerate_sat_per_kw: u32, offered_htlcs: &Vec<HTLCInfo2>, received_htlcs: &Vec<HTLCInfo2>,
         commit_sig: Signature, htlc_sigs: &Vec<Signature>) -> (r: Result<(PublicKey, Option<SecretKey>), Status>)
         requires commit_num < u64::MAX,
-        ensures r.is_ok() ==> self.validate1_done(*tx, witscripts@, commit_num, feerate_sat_per_kw, offered_htlcs@, received_htlcs@, commit_sig, htlc_sigs@, r)
+        ensures r.is_ok() ==> self.validate1_done(*tx, contents(witscripts@), commit_num, feerate_sat_per_kw, offered_htlcs@, received_htlcs@, commit_sig, htlc_sigs@, r)
     { unimplemented!() }
 
 //@fn vls-protocol-signer/src/handler.rs :: impl Handler for ChannelHandler :: do_handle arm="Message::ValidateCommitmentTx\(m\)" as=arm_validate_commitment_tx1 props=C01,C06
